@@ -1,7 +1,7 @@
 SPECIFICATION Spec
 CONSTANTS
   M = 4
-  MaxMsg = 4
+  MaxMsg = 3
   RWs = {1, 2, 3}
   Lens = {1, 3}
   ConnMius = {2}
